@@ -68,8 +68,8 @@ structure IState where
   stage : List DownStage
   cancelable : List Bool
 
-def handlerObs (peer : Nat) (p : Packet) (conn : Nat) (serverCtx : Bool := true) : String :=
-  s!"handler:peer{peer}:{p.id.toNat}:{p.code}:{showAttrs p.attrs}:{hexOf p.secret}:local{conn}:ctx={boolStr serverCtx}"
+def handlerObs (peer : Nat) (p : Packet) (conn : Nat) (serverCtx : Bool := true) (done : Bool := false) : String :=
+  s!"handler:peer{peer}:{p.id.toNat}:{p.code}:{showAttrs p.attrs}:{hexOf p.secret}:local{conn}:ctx={boolStr serverCtx}:done={boolStr done}"
 
 /-- the `Request` the model built for goroutine `t` (the `request` event of the `taskRun` step) -/
 def requestOf (s : St) (t : Nat) : Option (Packet × Nat × Nat × Ctx) :=
@@ -172,7 +172,7 @@ def scenarioCase (args : List String) (impl : String) : Verdict :=
                   -- the observation is the model's `request` event: packet, RemoteAddr, LocalAddr's conn, ctx
                   (match s'.tasks[t]?, fate, requestOf s' t with
                    | some ⟨_, .inHandler _⟩, .handle _ _, some (p, remote, localConn, ctx) =>
-                     next { is with st := s' } ("d=" ++ handlerObs remote p localConn (ctx == .server))
+                     next { is with st := s' } ("d=" ++ handlerObs remote p localConn (ctx == .server) s.ctxCancelled)
                    | some ⟨_, .inHandler _⟩, _, _ => next { is with st := s' } "d=handler-without-request"
                    | _, _, _ => next { is with st := s' } "d=dropped")
                 | none => next is "d=noop")
@@ -194,7 +194,7 @@ def scenarioCase (args : List String) (impl : String) : Verdict :=
                     | some ca => ca
                     | none => (s.connOf.getD i 0, s.peerOf t)
                   (match step md5 cfg sR (.taskFinish t) with
-                   | some s' => next { is with st := s' } ("F=done" ++ replyObs rconn raddr req d code)
+                   | some s' => next { is with st := s' } ("F=done" ++ replyObs rconn raddr req d code ++ s!":cd={boolStr s.ctxCancelled}")
                    | none => next is "F=noop")
                 | none => next is "F=noop")
              | _ => next is "F=noop")
@@ -210,7 +210,8 @@ def scenarioCase (args : List String) (impl : String) : Verdict :=
             if is.stage.getD j .none == .parked then next { is with stage := is.stage.set j .waiting } "x=ok"
             else next is "x=noop"
           | .C j =>
-            if is.cancelable.getD j false then
+            -- (the caller's context may end before Shutdown is even called)
+            if j < nD then
               next { is with st := (step md5 cfg s (.ctxExpire j)).getD s } "C=ok"
             else next is "C=noop"
           | .W j =>
@@ -283,7 +284,7 @@ def scenarioCase (args : List String) (impl : String) : Verdict :=
                | some (i, cn, peer, d) =>
                  let fate := classify md5 cfg peer d
                  let (shouldHandle, key, expectObs) := match fate with
-                   | .handle (p, id) pk => (!(w.inflight.contains (i, p, id.toNat)), (i, p, id.toNat), "d=" ++ handlerObs p pk cn)
+                   | .handle (p, id) pk => (!(w.inflight.contains (i, p, id.toNat)), (i, p, id.toNat), "d=" ++ handlerObs p pk cn true w.sdReq)
                    | _ => (false, (0, 0, 0), "")
                  let handled := tok.startsWith "d=handler:"
                  cont { w with asked := w.asked.erase t, running := if handled then t :: w.running else w.running,
@@ -302,9 +303,13 @@ def scenarioCase (args : List String) (impl : String) : Verdict :=
                    | _ => (0, 0, 0)
                  let isReply := Rfc.encClass code == .hashReqAuth
                  let parts := tok.splitOn ":"
+                 -- the last field says whether the request context was done when the handler returned
+                 let cd := parts.getLast?.getD ""
+                 let parts := parts.dropLast
                  cont { w with running := w.running.erase t, inflight := w.inflight.erase key }
                    [("reply_to_source_on_receiving_socket_with_valid_authenticator",
-                      !isReply || parts == ["F=done", s!"{cn}>peer{peer}", s!"conn{cn}", "auth=true", s!"code={code}"])]
+                      !isReply || parts == ["F=done", s!"{cn}>peer{peer}", s!"conn{cn}", "auth=true", s!"code={code}"]),
+                    ("shutdown_cancels_the_request_contexts", cd == s!"cd={boolStr w.sdReq}")]
                | none => cont w [("task_known", false)])
             else cont w []
           | .X _ =>
